@@ -4,8 +4,8 @@
 `DC.Gen.PanicSites.unguarded` lists, regenerated from /repo on every check, every index expression, slice expression
 and unchecked type assertion of `lexer`, `parser`, `internal/explain`, `ast` for which the translator
 (/verif/extract/panicsites.go) found NO syntactic guard from which the bounds follow by linear arithmetic.
-This file is written by hand: one entry per such site, keyed by `function | expression` (no line numbers, so edits
-elsewhere do not disturb it), each with the reason why the site cannot panic. `DC.Props.C01Sites.unguarded_sites_reviewed`
+This file is written by hand: one entry per such site, keyed by `function | expression` where every local variable of the expression is written `$k:T` (k = order of first
+occurrence in the expression, T = its type) — no line numbers and no local names, so edits elsewhere and renamings do not disturb it, each with the reason why the site cannot panic. `DC.Props.C01Sites.unguarded_sites_reviewed`
 states that the regenerated list equals this one: a new unguarded site (or a guard that disappears) breaks the build.
 
 A site that is NOT justified is a defect and is not listed here. Defects found while writing this list (all repaired in
@@ -21,66 +21,91 @@ namespace DC.Spec.AssumedSites
 def reviewed : List String := [
   -- lexer.go peekCharN: `offset` starts at 0 and only grows by the size returned by utf8.DecodeRune (≥ 0); the loop
   -- condition `offset < len(bytes)` is evaluated immediately before the slice expression.
-  "lexer.Lexer.peekCharN | bytes[offset:]",
+  -- source text when reviewed: `bytes[offset:]`
+  "lexer.Lexer.peekCharN | $0:[]byte[$1:int:]",
   -- readBinaryString: `padding = 8 - len(bits)%8` with the remainder in 1..7, so 1 ≤ padding ≤ 7 ≤ len(bits)+padding = len(paddedBits).
-  "lexer.Lexer.readBinaryString | paddedBits[padding:]",
+  -- source text when reviewed: `paddedBits[padding:]`
+  "lexer.Lexer.readBinaryString | $0:[]byte[$1:int:]",
   -- readBinaryString: after the padding step len(bits) is a multiple of 8; i is a multiple of 8 below len(bits) and j < 8,
   -- so i + j ≤ i + 7 < len(bits) (needs `% 8`, outside the translator's linear fragment).
-  "lexer.Lexer.readBinaryString | bits[i + j]",
+  -- source text when reviewed: `bits[i + j]`
+  "lexer.Lexer.readBinaryString | $0:[]byte[$1:int + $2:int]",
   -- tryReadDollarTag: `offset := size` (DecodeRune size ≥ 0), only grows; loop condition `offset < len(bytes)` just before.
-  "lexer.Lexer.tryReadDollarTag | bytes[offset:]",
+  -- source text when reviewed: `bytes[offset:]`
+  "lexer.Lexer.tryReadDollarTag | $0:[]byte[$1:int:]",
   -- tryReadDollarTag: the early exit `if offset >= len(bytes) { return "" }` precedes it; offset ≥ 0 as above
   -- (the translator loses offset ≥ 0 because the increments are not constants).
-  "lexer.Lexer.tryReadDollarTag | bytes[offset:]",
+  -- source text when reviewed: `bytes[offset:]`
+  "lexer.Lexer.tryReadDollarTag | $0:[]byte[$1:int:]",
   -- tryReadDollarTag: i ≤ len(bytes) - len(closingTagBytes) (loop condition) and j < len(closingTagBytes), so i + j < len(bytes);
   -- i ≥ openingTagEnd = offset + sz ≥ 0.
-  "lexer.Lexer.tryReadDollarTag | bytes[i + j]",
+  -- source text when reviewed: `bytes[i + j]`
+  "lexer.Lexer.tryReadDollarTag | $0:[]byte[$1:int + $2:int]",
   -- parseHexToFloat: guarded by `strings.HasPrefix(strings.ToLower(s), "0x")`; the two ASCII bytes "0x"/"0X" are the only
   -- strings whose lower-casing starts with "0x", so len(s) ≥ 2 (the translator does not look through ToLower).
-  "parser.parseHexToFloat | s[2:]",
+  -- source text when reviewed: `s[2:]`
+  "parser.parseHexToFloat | $0:string[2:]",
   -- parseParameter: `parts := strings.SplitN(value, ":", 2)` returns at least one element for n ≠ 0.
-  "parser.Parser.parseParameter | parts[0]",
+  -- source text when reviewed: `parts[0]`
+  "parser.Parser.parseParameter | $0:[]string[0]",
   -- parseIntersectExceptWithFirstOperand: every caller passes a query that already holds ≥ 1 select: parseSelectWithUnion
   -- appended firstItem / the tree / the (non-empty, by induction) selects of a nested parseSelectWithUnion before its
   -- UNION loop; the recursive call follows `unionQuery.Selects = append(unionQuery.Selects, result)`.
-  "parser.Parser.parseIntersectExceptWithFirstOperand | unionQuery.Selects[len(unionQuery.Selects) - 1]",
-  "parser.Parser.parseIntersectExceptWithFirstOperand | unionQuery.Selects[:len(unionQuery.Selects) - 1]",
+  -- source text when reviewed: `unionQuery.Selects[len(unionQuery.Selects) - 1]`
+  "parser.Parser.parseIntersectExceptWithFirstOperand | $0:*ast.SelectWithUnionQuery.Selects[len($0:*ast.SelectWithUnionQuery.Selects) - 1]",
+  -- source text when reviewed: `unionQuery.Selects[:len(unionQuery.Selects) - 1]`
+  "parser.Parser.parseIntersectExceptWithFirstOperand | $0:*ast.SelectWithUnionQuery.Selects[:len($0:*ast.SelectWithUnionQuery.Selects) - 1]",
   -- buildIntersectExceptTree: needs 0 ≤ len(stmts)-1 ≤ len(ops); the second is the enclosing `if`, the first is
   -- stmts ≠ [] which all four callers establish (`stmts := []ast.Statement{first}` and only append):
   -- DC.Props.C01.collect_stmts_nonempty / tree_empty_panics.
-  "parser.buildIntersectExceptTree | ops[:len(stmts) - 1]",
+  -- source text when reviewed: `ops[:len(stmts) - 1]`
+  "parser.buildIntersectExceptTree | $0:[]string[:len($1:[]ast.Statement) - 1]",
   -- buildIntersectExceptTree: loop invariant len(groups) ≥ len(exceptOps) + 1 across the outer loop; proved on the model with
   -- checked indexing: DC.Props.C01.tree_returns (DC.Model.SetOps.outer_ok, foldExcept_ok).
-  "parser.buildIntersectExceptTree | groups[0]",
-  "parser.buildIntersectExceptTree | groups[j + 1]",
+  -- source text when reviewed: `groups[0]`
+  "parser.buildIntersectExceptTree | $0:[]ast.Statement[0]",
+  -- source text when reviewed: `groups[j + 1]`
+  "parser.buildIntersectExceptTree | $0:[]ast.Statement[$1:int + 1]",
   -- withoutFormat: `c.Selects = append([]ast.Statement(nil), swu.Selects...)` has the length of swu.Selects and i is the key
   -- of `range swu.Selects`.
-  "internal/explain.withoutFormat | cp.Selects[i]",
+  -- source text when reviewed: `cp.Selects[i]`
+  "internal/explain.withoutFormat | $0:*ast.SelectWithUnionQuery.Selects[$1:int]",
   -- sanitizeUTF8: loop `for i := 0; i < len(s); { … }` whose body only does i++ / i += size with size ≥ 1 from DecodeRuneInString
   -- on a non-empty string; the condition i < len(s) is evaluated just before.
-  "internal/explain.sanitizeUTF8 | s[i:]",
+  -- source text when reviewed: `s[i:]`
+  "internal/explain.sanitizeUTF8 | $0:string[$1:int:]",
   -- explainInExpr / explainInExprWithAlias: reached only under `allTuples`, which the preceding loop sets to false unless
   -- every element of the same n.List passed `item.(*ast.Literal)` with comma-ok.
-  "internal/explain.explainInExpr | item.(*ast.Literal)",
-  "internal/explain.explainInExprWithAlias | item.(*ast.Literal)",
+  -- source text when reviewed: `item.(*ast.Literal)`
+  "internal/explain.explainInExpr | $0:ast.Expression.(*ast.Literal)",
+  -- source text when reviewed: `item.(*ast.Literal)`
+  "internal/explain.explainInExprWithAlias | $0:ast.Expression.(*ast.Literal)",
   -- parseKQLCondition: `idx := strings.Index(cond, op); idx > 0` — Index returns a position with idx + len(op) ≤ len(cond).
-  "internal/explain.parseKQLCondition | cond[:idx]",
-  "internal/explain.parseKQLCondition | cond[idx + len(op):]",
+  -- source text when reviewed: `cond[:idx]`
+  "internal/explain.parseKQLCondition | $0:string[:$1:int]",
+  -- source text when reviewed: `cond[idx + len(op):]`
+  "internal/explain.parseKQLCondition | $0:string[$1:int + len($2:string):]",
   -- groupSelectsByUnionMode: modeChangeIdx is -1 (early return) or a value of the loop variable, 1 ≤ i < len(unionModes);
   -- the two slices of `selects` additionally need len(unionModes) ≤ len(selects) - 1, which holds for every tree Parse
   -- returns with err == nil: a union mode is appended before its operand is parsed and the operand's failure is a
   -- recorded error (DC.Props.C03Sites: parseSelect's nil returns are dominated by an error), parenthesised operands only add selects.
-  "internal/explain.groupSelectsByUnionMode | selects[:modeChangeIdx + 1]",
-  "internal/explain.groupSelectsByUnionMode | unionModes[:modeChangeIdx]",
-  "internal/explain.groupSelectsByUnionMode | selects[modeChangeIdx + 1:]",
+  -- source text when reviewed: `selects[:modeChangeIdx + 1]`
+  "internal/explain.groupSelectsByUnionMode | $0:[]ast.Statement[:$1:int + 1]",
+  -- source text when reviewed: `unionModes[:modeChangeIdx]`
+  "internal/explain.groupSelectsByUnionMode | $0:[]string[:$1:int]",
+  -- source text when reviewed: `selects[modeChangeIdx + 1:]`
+  "internal/explain.groupSelectsByUnionMode | $0:[]ast.Statement[$1:int + 1:]",
   -- explainInsertQuery: every element of InsertQuery.Columns is built at parser.go parseInsert as
   -- `&ast.Identifier{Parts: []string{colName}}` (one part).
-  "internal/explain.explainInsertQuery | col.Parts[len(col.Parts) - 1]",
+  -- source text when reviewed: `col.Parts[len(col.Parts) - 1]`
+  "internal/explain.explainInsertQuery | $0:*ast.Identifier.Parts[len($0:*ast.Identifier.Parts) - 1]",
   -- explainExplainQuery: swuCopy.Selects is a copy of swu.Selects of the same length; i is the key of `range swu.Selects`.
-  "internal/explain.explainExplainQuery | swuCopy.Selects[i]",
+  -- source text when reviewed: `swuCopy.Selects[i]`
+  "internal/explain.explainExplainQuery | $0:ast.SelectWithUnionQuery.Selects[$1:int]",
   -- explainExplainQuery: `format` is a SelectQuery.Format; all its constructions in parser.go are
   -- `&ast.Identifier{Parts: []string{…}}` with exactly one part.
-  "internal/explain.explainExplainQuery | format.Parts[len(format.Parts) - 1]"
+  -- source text when reviewed: `format.Parts[len(format.Parts) - 1]`
+  "internal/explain.explainExplainQuery | $0:*ast.Identifier.Parts[len($0:*ast.Identifier.Parts) - 1]"
 ]
 
 /-- which static Value types may accompany which `ast.LiteralType` (the pairing the unchecked assertions
